@@ -88,7 +88,7 @@ func (wtr *XMLWtr) container(lvl int) node.Node {
 		if !meta.IsLeaf(r.Selection.Meta()) && (r.Selection.InsideList || !meta.IsList(r.Selection.Meta())) {
 			if lvl == 0 && first {
 				ns := wtr.getXmlns(r.Selection.Path)
-				ident := wtr.ident(r.Selection.Path) + " xmlns=" + "\"" + ns + "\""
+				ident := wtr.ident(r.Selection.Path) + " xmlns=" + "\"" + xmlAttrValue(ns) + "\""
 				if err := wtr.beginContainer(ident); err != nil {
 					return err
 				}
@@ -171,9 +171,16 @@ func (wtr *XMLWtr) xmlnsChange(p *node.Path) string {
 
 func (wtr *XMLWtr) xmlnsAttr(p *node.Path) string {
 	if ns := wtr.xmlnsChange(p); ns != "" {
-		return " xmlns=" + "\"" + ns + "\""
+		return " xmlns=" + "\"" + xmlAttrValue(ns) + "\""
 	}
 	return ""
+}
+
+// xmlAttrValue is s as it stands between the quotes of an attribute
+func xmlAttrValue(s string) string {
+	var b bytes.Buffer
+	xml.EscapeText(&b, []byte(s))
+	return b.String()
 }
 
 func (wtr *XMLWtr) beginContainer(ident string) (err error) {
